@@ -4,11 +4,11 @@ import SFModel.Heap
 namespace SF.Drv
 open SF SExp
 
-def arr? : SExp → Option Arr
+private def arr? : SExp → Option HArr
   | .list [b, w] => do let b ← nat? b; let w ← bool? w; pure ⟨b, w⟩
   | _ => none
 
-def ev? : SExp → Option Ev
+private def ev? : SExp → Option Ev
   | .list [.atom "alloc", vs] => (ints? vs).map .alloc
   | .list [.atom "view", a] => (nat? a).map .view
   | .list [.atom "copy", a] => (nat? a).map .copy
